@@ -43,6 +43,28 @@ def cases(draw, tier="quick"):
     return {"spec": spec, "base": base, "variants": variants, "seed": draw(st.integers(0, 2 ** 31))}
 
 
+def fixed_cases(tier):
+    """8-bit size matrix (enums that half-fill, nearly fill and fill an 8-bit repr, gapless and with holes) and the
+    run-length matrix: every iterator / string mode side by side with range enabled."""
+    out = []
+    shapes = []
+    for r in ("u8", "i8"):
+        lo, hi = M.repr_domain(r)
+        for vals in ([lo + i for i in range(128)], [lo + i for i in range(129)], [lo + i for i in range(255)], [lo + i for i in range(256)],
+                     list(range(lo, lo + 100)) + list(range(lo + 101, lo + 130)), list(range(lo, lo + 128)) + list(range(lo + 129, hi + 1)),
+                     [lo] + list(range(lo + 2, hi + 1))):
+            shapes.append(C.scope_spec(r, vals))
+    shapes += C.run_length_specs({(64, 64), (65, 64), (128, 128), (129, 63), (256, 63)})
+    base = S.simple_config(["iter", "range", "as_str", "from_str", "FromStr", "next", "next_back", "try_from", "names", "MIN", "MAX"])
+    variants = [{"modes": {"iter": "table", "as_str": "table", "from_str": "table", "FromStr": "table"}, "toggle": []},
+                {"modes": {"iter": "next_and_back", "as_str": "match", "from_str": "match", "FromStr": "match"}, "toggle": []},
+                {"modes": {"iter": "range", "as_str": None, "from_str": None, "FromStr": None}, "toggle": ["names"]},
+                {"modes": {"iter": "table_inline", "as_str": "auto", "from_str": "auto", "FromStr": "auto"}, "toggle": ["range"]}]
+    for spec in shapes:
+        out.append({"spec": spec, "base": base, "variants": variants, "seed": 1})
+    return out
+
+
 def derive_cfg(base, var, m):
     names = [f["f"] for f in base["feats"]]
     on = set(names)
